@@ -84,14 +84,17 @@ Definition merged_type_first := [S "_atom_site_label" "C1"; S "_atom_site_adp_ty
 Definition merged_type_last := [S "_atom_site_label" "C1";
   P "_atom_site_aniso_u_11" (1 # 100); P "_atom_site_aniso_u_22" (2 # 100); P "_atom_site_aniso_u_33" (3 # 100);
   P "_atom_site_aniso_u_12" (1 # 1000); S "_atom_site_adp_type" "Uani"]%Q.
-Lemma merged_loop_order_matters :
-  Permutation merged_type_first merged_type_last /\ Urow E_cube merged_type_first <> Urow E_cube merged_type_last.
+(* in column order the two spellings differ; with the adp-type translator applied first they agree *)
+Lemma merged_loop_order_matters (so : setter_order) :
+  Permutation merged_type_first merged_type_last /\
+  qlist_eqb (Urow E_cube (order_row so merged_type_first)) (Urow E_cube (order_row so merged_type_last)) =
+  match so with SOColumn => false | _ => true end.
 Proof.
   split.
   - unfold merged_type_first, merged_type_last. apply perm_skip.
     exact (Permutation_cons_append [P "_atom_site_aniso_u_11" (1 # 100); P "_atom_site_aniso_u_22" (2 # 100); P "_atom_site_aniso_u_33" (3 # 100);
                                     P "_atom_site_aniso_u_12" (1 # 1000)]%Q (S "_atom_site_adp_type" "Uani")).
-  - intros H. pose proof (qlist_eqb_refl (Urow E_cube merged_type_first)) as R. rewrite H in R at 2. vm_compute in R. discriminate.
+  - destruct so; vm_compute; reflexivity.
 Qed.
 
 (* (b) fractional and Cartesian coordinates of the same point, interleaved, in an oblique cell:
@@ -100,10 +103,12 @@ Definition both_blocked := [P "_atom_site_fract_x" (1 # 10); P "_atom_site_fract
   P "_atom_site_cartn_x" (1 # 4); P "_atom_site_cartn_y" (1 # 5); P "_atom_site_cartn_z" (3 # 10)]%Q.
 Definition both_interleaved := [P "_atom_site_fract_x" (1 # 10); P "_atom_site_fract_y" (1 # 5); P "_atom_site_cartn_x" (1 # 4);
   P "_atom_site_fract_z" (3 # 10); P "_atom_site_cartn_y" (1 # 5); P "_atom_site_cartn_z" (3 # 10)]%Q.
-Lemma fract_cartn_order_matters :
-  qlist_eqb (Xrow E_obl both_blocked) [1 # 10; 1 # 5; 3 # 10]%Q = true /\
-  qlist_eqb (Xrow E_obl both_interleaved) [1 # 10; 1 # 5; 3 # 10]%Q = false.
-Proof. split; vm_compute; reflexivity. Qed.
+(* in column order (and with only the type first) the interleaved row misplaces the atom; with the Cartesian translators last it does not *)
+Lemma fract_cartn_order_matters (so : setter_order) :
+  qlist_eqb (Xrow E_obl (order_row so both_blocked)) [1 # 10; 1 # 5; 3 # 10]%Q = true /\
+  qlist_eqb (Xrow E_obl (order_row so both_interleaved)) [1 # 10; 1 # 5; 3 # 10]%Q =
+  match so with SOTypeFirstCartnLast => true | _ => false end.
+Proof. destruct so; split; vm_compute; reflexivity. Qed.
 
 (* (c) an atom declared Uiso that nevertheless appears in the aniso loop keeps the LAST diagonal component *)
 Definition iso_atom : ratom (T:=Q) := run_row E_cube (init_atom E_cube) [S "_atom_site_label" "C1"; S "_atom_site_adp_type" "Uiso"].
